@@ -476,6 +476,58 @@ func TestC19(t *testing.T) {
 			c.Sample(map[string]any{"case": s, "merges_executed": n})
 		}
 	})
+	// a stream that is not being read gets far ahead: the reader is in the middle of a message
+	// of stream a (its chunk ended inside the header or the body) when more than 1 MiB arrives
+	// on stream b (pipelined requests, or one message above 1 MiB: Diameter allows 16 MiB),
+	// and only then the rest of a's message
+	rec.Suite("backlog", rec.N(12, 600), func(c *ev.Case) {
+		r := c.R
+		a, b := uint16(r.IntN(8)), uint16(8+r.IntN(8))
+		cc := &c19Case{streams: []uint16{a, b}, msgs: map[uint16][][]byte{}, chunks: map[uint16][][]byte{}}
+		var allA []byte
+		for i := 1; i <= 1+r.IntN(2); i++ {
+			m := seqMsg(uint32(a)<<16|uint32(i), big[r.IntN(len(big))])
+			cc.msgs[a] = append(cc.msgs[a], m)
+			allA = append(allA, m...)
+		}
+		cut := 1 + r.IntN(19)
+		if r.IntN(2) == 0 && len(cc.msgs[a][0]) > 21 {
+			cut = 20 + r.IntN(len(cc.msgs[a][0])-20)
+		}
+		cc.chunks[a] = [][]byte{allA[:cut], allA[cut:]}
+		var allB []byte
+		one := c.I%2 == 0
+		if one {
+			m := seqMsg(uint32(b)<<16|1, []int{1<<20 - 100, 1<<20 + 4, 1200000, 2500000, 5 << 20}[r.IntN(5)])
+			cc.msgs[b] = append(cc.msgs[b], m)
+			allB = m
+		} else {
+			for i := 1; len(allB) < 1100000+r.IntN(1500000); i++ {
+				m := seqMsg(uint32(b)<<16|uint32(i), []int{65000, 30000, 4096, 100000}[r.IntN(4)])
+				cc.msgs[b] = append(cc.msgs[b], m)
+				allB = append(allB, m...)
+			}
+		}
+		csz := []int{4096, 65536, 200000, len(allB)}[r.IntN(4)]
+		for off := 0; off < len(allB); off += csz {
+			cc.chunks[b] = append(cc.chunks[b], allB[off:min(off+csz, len(allB))])
+		}
+		merge := []c19Chunk{{a, cc.chunks[a][0]}}
+		for _, ch := range cc.chunks[b] {
+			merge = append(merge, c19Chunk{b, ch})
+		}
+		merge = append(merge, c19Chunk{a, cc.chunks[a][1]})
+		c.Class("backlog/one-big-message=%v/bytes-ahead=%dMiB/chunk=%d", one, len(allB)>>20, min(csz, 1<<20))
+		stepwise := (c.I/2)%2 == 0 && len(merge) < 200
+		good := true
+		leak := runBubbleWD(t, rec, c, 120*time.Second, func() { good = runC19(c, ctx, cc, merge, stepwise, (c.I/4)%2 == 0, (c.I/8)%4) })
+		if leak != "" && !c.Failed() {
+			c.Fail(ev.Sig{"op": "bubble-leak"}, nil, nil, "goroutines left blocked: %s", leak)
+		}
+		if good {
+			c.Event("backlog_cases", 1)
+		}
+	})
 	// large cases: random merges
 	rec.Suite("large-random-merges", rec.N(600, 200000), func(c *ev.Case) {
 		ns := []int{1, 2, 3, 16}[c.R.IntN(4)]
